@@ -40,6 +40,21 @@ def run(facts, R):
                 R.bad("reader-never-awaits-permit", bb.path, t["callee"]["name"], "an awaiting semaphore acquire in the WebSocket server would park the reader at the cap", t.get("span"))
     R.ok("reader-never-awaits-permit", "<crate>", "no awaiting acquire on a semaphore", None, "0 sites")
     acq = [(i, t) for i, t in b.calls() if t["callee"]["name"] == "try_acquire_owned"]
+    mapped_acq = False
+    if not acq:
+        # `sem.map(|s| Arc::clone(s).try_acquire_owned())`: the acquire sits in the closure handed to Option::map
+        for i, t in b.calls():
+            if t["callee"]["name"] == "map" and "Option" in t["callee"]["path"] and len(t["args"]) == 2:
+                c = s.op(t["args"][1])
+                cb_ = facts.bodies.get(c[1].split(":", 1)[1]) if c[0] == "agg" and c[1].startswith("closure:") else None
+                if cb_ is not None and is_call(Sym(cb_).local(0), "try_acquire_owned"):
+                    acq.append((i, t))
+                    mapped_acq = True
+
+    def _is_acq(e):
+        if is_call(e, "try_acquire_owned"):
+            return True
+        return mapped_acq and e[0] == "field" and e[2] == "0" and e[1][0] == "variant" and e[1][2] == "Some" and e[1][1][0] == "call" and len(e[1][1]) > 3 and e[1][1][3] == acq[0][0]
     spw = [(i, t) for i, t in b.calls() if t["callee"]["name"] == "spawn_blocking"]
     R.check(len(acq) == 1 and len(spw) == 1, "permit-before-spawn", b.path, "shape", "try_acquire_owned=%d spawn_blocking=%d" % (len(acq), len(spw)), b.span)
     if len(acq) != 1 or len(spw) != 1:
@@ -47,7 +62,7 @@ def run(facts, R):
     ai, at = acq[0]
     si, st = spw[0]
     # Err-edge region of the acquire
-    err_blocks = [x for x in sorted(b.live_blocks()) if any(f["val"] == "Err" and is_call(f["expr"], "try_acquire_owned") for f in facts_at(b, s, facts, x))]
+    err_blocks = [x for x in sorted(b.live_blocks()) if any(f["val"] == "Err" and not f.get("derived") and not f.get("merged") and _is_acq(f["expr"]) for f in facts_at(b, s, facts, x))]
     heads = [x for x in err_blocks if not any(p in err_blocks for p in b.preds()[x])]
     R.check(bool(heads), "saturation-branch", b.path, "Err arm present", "no Err arm for try_acquire_owned", at.get("span"))
     R.check(si not in b.reachable(heads), "permit-before-spawn", b.path, "no spawn without a permit", "spawn_blocking is reachable from the saturated (Err) edge of try_acquire_owned: the cap is not enforced", st.get("span"),
@@ -69,7 +84,8 @@ def run(facts, R):
             for d in b.defs_of(pl[1]):
                 if d[0] == "assign":
                     v = s.rvalue(d[3])
-                    okp = okp and v[0] == "agg" and (v[2] == "None" or (v[2] == "Some" and "try_acquire_owned" in render(v) and "as Ok" in render(v)))
+                    okp = okp and v[0] == "agg" and (v[2] == "None" or (v[2] == "Some" and "as Ok" in render(v) and
+                                                                        ("try_acquire_owned" in render(v) or (mapped_acq and any(x[0] == "call" and len(x) > 3 and x[3] == acq[0][0] for x in walk(v))))))
         R.check(okp, "permit-before-spawn", b.path, "closure captures the acquired permit", "closure captures permit = %s" % (render_n(pl) if pl else None), st.get("span"), "Some(permit from try_acquire_owned) | None")
     else:
         R.bad("permit-before-spawn", b.path, "spawned-closure", "spawn_blocking argument is not a local closure", st.get("span"))
@@ -138,7 +154,7 @@ def run(facts, R):
                 "create_error_response_like(request, ResourceExhausted) iff !notify")
     rows = value_rows(b, s, facts, 0)
     for g, v in rows:
-        if any("is Err" in x and "try_acquire_owned" in x for x in g) and any(x.endswith("notify is True") for x in g):
+        if any("is Err" in x and ("try_acquire_owned" in x or (mapped_acq and "Option::map" in x and "as Some).0" in x)) for x in g) and any(x.endswith("notify is True") for x in g):
             R.check(v == "1", "saturation-branch", b.path, "saturated notify is dropped, reader continues", "saturated notify returns %s" % v, b.span, "returns true (keep reading)")
     # semaphore: Semaphore::new(limit) once per connection
     hc = facts.body(WS + "handle_connection_with_config::{closure#0}")
